@@ -365,17 +365,15 @@ Inductive label :=
 
 (* prepare_cached / prepare_typed_cached through the wrappers that share the client's cache:
    w = 3 client.transaction(); 4 a nested transaction(); 5 transaction().savepoint(name);
-   6 build_transaction().start(). Everything is committed afterwards. The simple queries the server
+   6 build_transaction().start(); 7 / 8 prepare_typed_cached / prepare_cached of the GenericClient
+   trait implemented for Transaction. Everything is committed afterwards. The simple queries the server
    sees: 24 START TRANSACTION (tokio-postgres starts every transaction that way), 21 COMMIT,
    22 SAVEPOINT _, 23 RELEASE _ *)
+Definition via_nested (w : Z) : bool := Z.eqb w 4 || Z.eqb w 5.
 Definition via_pre (w : Z) : list msg :=
-  if Z.eqb w 3 then [MQuery 24]
-  else if Z.eqb w 6 then [MQuery 24]
-  else [MQuery 24; MQuery 22].
+  if via_nested w then [MQuery 24; MQuery 22] else [MQuery 24].
 Definition via_post (w : Z) : list msg :=
-  if Z.eqb w 3 then [MQuery 21]
-  else if Z.eqb w 6 then [MQuery 21]
-  else [MQuery 23; MQuery 21].
+  if via_nested w then [MQuery 23; MQuery 21] else [MQuery 21].
 Definition fault_none (f : fault) : bool := match f with FNone => true | _ => false end.
 Definition via_ready (cn : conn) : bool :=
   negb (closed cn) && fault_none (armq cn) && fault_none (armp cn).
